@@ -53,7 +53,8 @@ def run(ctx):
             top_keys = list(ref[1].keys())
             ctx.count("mutations")
             ctx.count("top_level_fields", len(top_keys))
-            base = {"schema_sdl": case.sdl, "world_seed": case.world.seed, "document": text, "variables": variables}
+            base = {"schema_sdl": case.sdl, "world_seed": case.world.seed, "document": text, "variables": variables,
+                    "type_resolver_failures_at": [list(map(str, p)) for p in ref[3].type_failures]}
             for config in exec_mon.CONFIGS:
                 def extra():
                     return {"instrumentation": instr_mon.make_instrumentation(log, 0)}
@@ -82,7 +83,9 @@ def run(ctx):
                         break
                     problems, overlap = instr_mon.check_serial(events, top_keys)
                     ctx.counters["max_overlap"] = max(ctx.counters["max_overlap"], overlap)
-                    aborted = set(p[0] for p in ref[3].type_failures if len(p) == 1)
+                    # a failing type resolver anywhere below a top-level field nulls the field being completed there while
+                    # its siblings may still be in flight: the enclosing top-level field then finishes early
+                    aborted = set(p[0] for p in ref[3].type_failures if len(p) >= 1)
                     for k, detail in problems[:1]:
                         earlier = detail.split(" before ")[-1].split(" finished")[0].strip("'\"")
                         if k == "serial:later-field-started-early" and earlier in aborted:
